@@ -107,7 +107,19 @@ def gen_jobs(rnd, n, fail_at=None):
             nodes = [{"processor": "TSourceDef"}, {"processor": "TOp2"}, {"processor": "rename:a:a2"}]
             ctx["b"] = f"b{k}"
         if fail_at == k:
-            nodes.insert(rnd.randrange(1, len(nodes) + 1), {"processor": "TFail"})
+            how = rnd.choice(["proc", "proc", "kw-only-exception", "unknown-parameter", "unresolved-parameter", "type-mismatch"])
+            if how == "proc":
+                nodes.insert(rnd.randrange(1, len(nodes) + 1), {"processor": "TFail"})
+            elif how == "kw-only-exception":
+                nodes.insert(rnd.randrange(1, len(nodes) + 1), {"processor": "TFailKw"})
+            elif how == "unknown-parameter":
+                nodes.append({"processor": "TOp0", "parameters": {"bogus": 1}})
+            elif how == "unresolved-parameter":
+                nodes.append({"processor": "TOp1", "parameters": {}})
+                ctx.pop("a", None)
+            else:
+                nodes.append({"processor": "TMerge"} if kind != "empty-coll" else {"processor": "TMerge"})
+                nodes.append({"processor": "TMerge"})
         jobs.append({"nodes": nodes, "ctx": ctx, "data": data, "fails": fail_at == k, "kind": kind})
     return jobs
 
@@ -471,7 +483,8 @@ def run(tier: str) -> int:
         switch = rnd.choice([1e-6, 1e-5, 1e-4, 5e-3])
         delays = [rnd.choice([0, 0, 0, 0.0005, 0.002]) for _ in jobs]
         fast = b % 7 != 6
-        results, events, alive = run_batch(jobs, nw, switch, delays, fast=fast)
+        # once hanging Futures have been demonstrated, further batches need not wait long for quiescence
+        results, events, alive = run_batch(jobs, nw, switch, delays, fast=fast, grace=(6.0 if len(rep.violations) < 2 else 0.8))
         stats["batches"] += 1
         stats["jobs"] += n
         stats["workers"][nw] = stats["workers"].get(nw, 0) + 1
